@@ -29,7 +29,7 @@ def run(prop, tier, seed):
     from . import exh
     plan += exh.plan_for(prop, tier)
     try:
-        res, meta = engine.run_plan(prop, plan, seed)
+        res, meta = engine.run_plan(prop, plan, seed, keep=set(spec['trig']))
     except build.BuildError as ex:
         v.inconclusive.append('driver does not build against the current tree: %s' % str(ex)[-1500:])
         return v.finish()
@@ -43,7 +43,7 @@ def run(prop, tier, seed):
     configs_run = {'asan': res.evaluations}
     for cfg, frac in extra_cfg:
         try:
-            r2, _ = engine.run_plan(prop, [(('random', spec['profile']), int(n * frac), 128)], seed + 7919, config=cfg)
+            r2, _ = engine.run_plan(prop, [(('random', spec['profile']), int(n * frac), 128)], seed + 7919, config=cfg, keep=set(spec['trig']))
         except build.BuildError as ex:
             v.inconclusive.append('driver does not build in configuration %s: %s' % (cfg, str(ex)[-800:]))
             continue
@@ -115,7 +115,7 @@ def run(prop, tier, seed):
         samples=res.samples[:3], operations=res.ops, operations_compared=res.compared_ops,
         operations_by_kind=res.ops_by_kind, calls_by_predicted_outcome=res.calls,
         reports_observed_by_kind=res.reports_seen,
-        triggers={k: len(s) for k, s in sorted(res.trig_hashes.items())},
+        triggers=dict(sorted(res.trig_counts.items())),
         distinct_model_states_reached_estimate=16 * len(res.states),
         scenarios_cut_at_dont_care=res.cuts, cut_reasons=res.cut_reasons,
         mismatches_owned_by_other_properties=res.foreign,
